@@ -229,7 +229,9 @@ BAD = {
              [[[1, 0, 0, 1000000], [2]]]],
     'date': ['Feb 30', 'Foo 1', '13.13', 'Ap 1', 'April', '1', '--1332', '--0230', 'Apr 1 - Apr', 'Apr 1 2020',
              '1:00 - 2:00', 'Apr 1 / Apr 2 / Apr 3', [[[13, 1], [1, 1]]], [[[2, 30]]], [[[1]]], [[[1, 1, 1]]],
-             [[[0, 1], [1, 1]]], [[[1, 0], [1, 1]]], 7, None, [['1 1 apr']], 'Apr 32', 'Apr 0', '0 Apr'],
+             [[[0, 1], [1, 1]]], [[[1, 0], [1, 1]]], 7, None, [['1 1 apr']], 'Apr 32', 'Apr 0', '0 Apr',
+             # digits on both sides of the month name: two day numbers, not one
+             '3jul1', '1jul0', '2may5 - 3jun0', '1 jul 0', '3.jul.1', '1Dec2 / 2Dec1', '2 aug 5;'],
     'dt': ['2024-02-30 8:00 / 2025-01-01 8:00', 'April 1 8:00 / 2025-01-01 8:00', '1984-04-01 / 1985-04-01',
            '1984-04-01 8:00', '2023-02-29T08:00/2024-01-01T08:00', '2025-10-20T06:45:00+01:00/2026-01-01T00:00',
            '2025-10-20T06:45Z / 2026-01-01T00:00', '84-04-01 8:00 / 2025-01-01 8:00',
@@ -237,7 +239,10 @@ BAD = {
            [[[2024, 1, 1], [2025, 1, 1, 0, 0]]], [[[2024, 1, 1, 0], [2025, 1, 1, 0, 0]]],
            [[[2024, 13, 1, 0, 0], [2025, 1, 1, 0, 0]]], [[[2024, 1, 1, 0, 0, 0, 0, 0], [2025, 1, 1, 0, 0]]],
            [[[2024, 1, 1, 0, 0]]], 3.5, None, 'Foo 1 2024 8:00 / 2025-01-01 8:00',
-           '2024 Apr 1 25:00 / 2025-01-01 8:00'],
+           '2024 Apr 1 25:00 / 2025-01-01 8:00',
+           # digits glued to both sides of a removed part (month name, year, time of day)
+           '1jul20285 8:00 / 2029-01-01 8:00', '1 jan 2018:0028 / 2029-01-01 8:00',
+           '2jul5 2028 8:00 / 2029-01-01 8:00', '1 2028 jul 1 8:00 / 2029-01-01 8:00'],
 }
 
 
